@@ -38,6 +38,7 @@ import (
 
 // Write writes the binary form of the font to the given writer.
 func (f *Font) Write(w io.Writer) (int64, error) {
+	f = f.withStoredWidths()
 	tableData := make(map[string][]byte)
 
 	hheaData, hmtxData := f.makeHmtx()
@@ -315,6 +316,38 @@ func (f *Font) makePost() []byte {
 		postInfo.Names = outlines.Names
 	}
 	return postInfo.Encode()
+}
+
+// withStoredWidths returns the font with the advance widths which the
+// "hmtx" table can store.  The table holds integers and overrides the widths
+// of the "CFF " table when a file is read: a font with fractional CFF widths
+// is written with the integer widths everywhere (CFF table, fixed-pitch
+// flags, average width), so that the tables of the file agree with each
+// other.  If no width changes, the font itself is returned.
+func (f *Font) withStoredWidths() *Font {
+	outlines, ok := f.Outlines.(*cff.Outlines)
+	if !ok {
+		return f
+	}
+	var glyphs []*cff.Glyph
+	for i, g := range outlines.Glyphs {
+		if w := float64(funit.Int16(g.Width)); w != g.Width {
+			if glyphs == nil {
+				glyphs = append(glyphs, outlines.Glyphs...)
+			}
+			g2 := *g
+			g2.Width = w
+			glyphs[i] = &g2
+		}
+	}
+	if glyphs == nil {
+		return f
+	}
+	o2 := *outlines
+	o2.Glyphs = glyphs
+	f2 := *f
+	f2.Outlines = &o2
+	return &f2
 }
 
 // makeCFF encodes the "CFF " table.  If the file also gets a "post" table,
